@@ -64,6 +64,15 @@ fn prepare_project(file_path: &str, output_dir: Option<&str>) -> CliResult<Prepa
     let path = Path::new(file_path);
     let project_name = path.file_stem().and_then(|s| s.to_str()).unwrap_or("incan_project");
 
+    // The file stem becomes the Cargo package and binary name: refuse stems Cargo would reject.
+    if !is_valid_package_name(project_name) {
+        return Err(CliError::failure(format!(
+            "Cannot build '{}': the file name '{}' is used as the Cargo package name, which must start with a \
+             letter or '_' and contain only letters, digits, '-' and '_'. Please rename the file.",
+            file_path, project_name
+        )));
+    }
+
     let out_dir = output_dir
         .map(|s| s.to_string())
         .unwrap_or_else(|| format!("target/incan/{}", project_name));
@@ -132,6 +141,16 @@ fn prepare_project(file_path: &str, output_dir: Option<&str>) -> CliResult<Prepa
     }
 
     Ok(PreparedProject { generator, out_dir })
+}
+
+/// Whether `name` can be used as a Cargo package name (the rule `cargo` itself applies).
+fn is_valid_package_name(name: &str) -> bool {
+    let mut chars = name.chars();
+    match chars.next() {
+        Some(c) if c.is_alphabetic() || c == '_' => {}
+        _ => return false,
+    }
+    chars.all(|c| c.is_alphanumeric() || c == '-' || c == '_')
 }
 
 /// Maximum source file size (100 MB)
